@@ -321,7 +321,7 @@ def gen_scc(rng):
             comp = [o for o in olds if o[2] == m0]
             k = rng.randint(1, min(3, len(comp)))
             picks = rng.sample(comp, k)
-            facs = [1, 1, -1, 2] if m0 == 1 else [1]
+            facs = [1, 1, -1, 2] if m0 == 1 else [1, 1, -1]   # negative factors with mod > 1: result must be reduced
             newc.append([[rng.choice(facs), s, i] for s, i, _ in picks])
         case['policy'] = newc
     return case
@@ -348,7 +348,7 @@ def check_scc(res, case, lines, pend):
             perms = S.set_common_charges(sites, arg, sort_charge=case['sort'])
         err = None
     except ValueError as e:
-        perms, err = None, 'ValueError'
+        perms, err = None, 'ValueError: ' + str(e).splitlines()[0][:120]
     except Exception as e:
         res.fail('property', 'scc.crash.' + ('sort_charge=False' if not case['sort'] else type(e).__name__),
                  f'set_common_charges(..., sort_charge={case["sort"]}) raised {type(e).__name__}: {e}', full_case)
@@ -356,6 +356,20 @@ def check_scc(res, case, lines, pend):
     line = {'k': 'scc', 'names': names, 'mods': mods, 'charges': olds, 'c2jw': c2, 'policy': pol}
     lines.append(line)
     if err:
+        # oracle: a specification whose combined charges all have the same `mod` is valid and must be accepted
+        if isinstance(pol, str):
+            groups = {}
+            for s_i, (ns, ms) in enumerate(zip(names, mods)):
+                for nm, mm in zip(ns, ms):
+                    groups.setdefault(nm if pol == 'same' else (s_i, nm), set()).add(mm)
+            valid = all(len(v) == 1 for v in groups.values())
+        else:
+            valid = all(len({mods[t[1]][t[2]] for t in nc}) == 1 for nc in pol)
+        if valid:
+            res.fail('property', 'scc.valid-spec-rejected',
+                     f'set_common_charges({[cc.spec_key(s) for s in case["specs"]]}, {pol}) raised {err}', full_case)
+            lines.pop()
+            return
         pend.append(('scc', full_case, dict(err=err)))
         return
     fails = []
